@@ -29,7 +29,9 @@ pub struct Identifier { _x: u8 }
 pub struct Class { _x: u8 }
 #[derive(Clone, Debug, Default)]
 pub struct VarMapping { _x: u8 }
-pub struct ConstrBuilder { pub var_mapping: VarMapping }
+pub struct BuilderRest { _x: u8 }
+/// the public field is real; everything private (and the ghost log, a function of it) is one opaque field
+pub struct ConstrBuilder { pub verif_rest: BuilderRest, pub var_mapping: VarMapping }
 //@@ TYPE src/check/constrain/generate/env.rs | struct | Environment | retype=raises_caught:OpaqueRaises | retype=unassigned:OpaqueUnassigned | retype=vars:OpaqueVars
 /// stand-ins for the HashSet / HashMap fields of Environment (outside the subset)
 #[derive(Clone, Debug, Default)] pub struct OpaqueRaises { _x: u8 }
@@ -53,6 +55,7 @@ verus! {
 #[verifier::external_type_specification] #[verifier::external_body] pub struct ExTypeErr(TypeErr);
 #[verifier::external_type_specification] #[verifier::external_body] pub struct ExIdentifier(Identifier);
 #[verifier::external_type_specification] #[verifier::external_body] pub struct ExVarMapping(VarMapping);
+#[verifier::external_type_specification] #[verifier::external_body] pub struct ExBuilderRest(BuilderRest);
 #[verifier::external_type_specification] pub struct ExConstrBuilder(ConstrBuilder);
 #[verifier::external_type_specification] pub struct ExEnvironment(Environment);
 #[verifier::external_type_specification] #[verifier::external_body] pub struct ExOpaqueRaises(OpaqueRaises);
